@@ -524,6 +524,7 @@ func checkC13(w *World, r *Report) {
 	siblingDomainRule(w, r, "C13.sibling-domain")
 	seqErrorUsedRule(w, r, e, "C13.seq-errors")
 	okFlagUsedRule(w, r, e, "C13.ok-flag")
+	allArgumentsRule(w, r, e, "C13.all-arguments")
 	keyContentRule(w, r, "C13.key-content")
 	loopErrorRule(w, r, "C13.loop-errors", func(fn *ssa.Function) bool {
 		return strings.HasPrefix(fnPkgPath(fn), modPath+"/lib/") || fnPkgPath(fn) == modPath+"/types"
@@ -931,6 +932,12 @@ func checkC17(w *World, r *Report) {
 	r.rule("C17.reposition", "NewLispError sets the cursor of the error it returns to GetPosition(form) on every path: an error a builtin returns with coordinates of its own (read-string, eval) is re-positioned at the failing call form")
 	newLispErrorRule(w, r, "C17.reposition")
 	builtinRepositionRule(w, r, e, "C17.reposition")
+	// rows are counted in the text the caller handed in: the writer of the preamble always ends it with the blank
+	// line the reader stops at, so the reader never takes lines of the program for preamble (which shifts every
+	// row, and loses a leading ';; $MODULE' line)
+	r.include("C17.preamble-", "C15.", "the preamble the writer puts before a program always ends in the blank line its reader stops at: no line of the program is consumed as preamble, so every row is counted from the program's first line", checkC15, func(rule string) bool {
+		return rule == "C15.format"
+	})
 	r.rule("C17.carrier", "errors coming back from nested evaluation are not re-positioned on the way up (the innermost position survives): shared with C03.propagate; the lookup error of a symbol is positioned at the symbol")
 	// provenance in types/positiontype.go
 	np := 0
@@ -1553,6 +1560,8 @@ func checkC19(w *World, r *Report) {
 	})
 	// the forms Go code builds are the forms the reader would have built: made of storage of their own
 	lnotationTotalRule(w, r, "C19.lnotation-total")
+	lnotationVerbatimRule(w, r, e, "C19.lnotation-verbatim")
+	nilBlindRule(w, r, e, "C19.nil-blind")
 	r.rule("C19.lnotation-fresh", "the L-notation constructors write only into storage they allocated: a form built from a slice the Go caller keeps (or spreads into several forms) does not change under the caller's hands, nor one form through another (shared with C02.write)")
 	nlf := ruleContainerWrites(w, r, e, "C19.lnotation-fresh", func(fn *ssa.Function) bool { return fnPkgPath(fn) == modPath+"/lnotation" }, false)
 	r.add("C19.lnotation-fresh", nil, "container writes in package lnotation", token.NoPos, "ok", fmt.Sprintf("%d write sites examined", nlf))
@@ -2012,136 +2021,222 @@ func checkC20(w *World, r *Report) {
 		}
 		return 0, false
 	}
-	for _, b := range callFn.Blocks {
-		for _, in := range b.Instrs {
-			mc, ok := in.(*ssa.MakeClosure)
-			if !ok {
-				continue
-			}
-			ad := mc.Fn.(*ssa.Function)
-			if extSigT == nil || !sameParamsResults(ad.Signature, extSigT.Type().Underlying().(*types.Signature)) {
-				continue
-			}
-			nAd++
-			// context branch: which edge of the context test dominates the creation of the adapter
-			ctxBranch := -1
-			for _, d := range callFn.Blocks {
-				if iff := blockIf(d); iff != nil {
-					for i := 0; i < 2; i++ {
-						if edgeDominates(d, i, b) && derivesFromImplements(e, iff.Cond, 0) {
-							ctxBranch = i
+	// the adapters are made by the registration routine or by a function of the package it calls for that
+	// (_ext_call(name, fn, contextRequired, min, max, adapt)): the parameters of such a function stand for the
+	// arguments at its call sites
+	var adapters []*ssa.Function
+	viaParam := map[*ssa.Call]bool{} // calls of the result adapter through a parameter of the host, checked below
+	for _, host := range w.withPkgHelpers(callFn) {
+		for _, b := range host.Blocks {
+			for _, in := range b.Instrs {
+				mc, ok := in.(*ssa.MakeClosure)
+				if !ok {
+					continue
+				}
+				ad := mc.Fn.(*ssa.Function)
+				if extSigT == nil || !sameParamsResults(ad.Signature, extSigT.Type().Underlying().(*types.Signature)) {
+					continue
+				}
+				nAd++
+				adapters = append(adapters, ad)
+				// context branch: which edge of the context test dominates the creation of the adapter
+				ctxBranch := -1
+				for _, d := range host.Blocks {
+					if iff := blockIf(d); iff != nil {
+						for i := 0; i < 2; i++ {
+							if edgeDominates(d, i, b) && derivesFromImplements(e, iff.Cond, 0) {
+								ctxBranch = i
+							}
 						}
 					}
 				}
-			}
-			usesCtx := callsFn(ad, argsCtx)
-			usesPlain := callsFn(ad, args)
-			okBuilder := (ctxBranch == 0 && usesCtx && !usesPlain) || (ctxBranch == 1 && usesPlain && !usesCtx)
-			r.check(okBuilder, "C20.siblings", ad, "argument builder", ad.Pos(), "matches the context test", "the adapter built on the "+[]string{"context", "no-context", "?"}[map[int]int{0: 0, 1: 1, -1: 2}[ctxBranch]]+" branch uses the wrong argument builder")
-			if usesCtx {
-				for _, c := range staticCallsTo(ad, argsCtx) {
-					r.check(c.Call.Args[0] == ssa.Value(ad.Params[0]), "C20.siblings", ad, "context handed to the builder", c.Pos(), "the adapter's own context parameter", "the builder does not receive the evaluation's context")
-				}
-			}
-			// result adapter: called directly (then the adapter is created in the region of the matching result
-			// count) or through a captured variable (then every assignment of that variable happens in the region
-			// of the matching result count)
-			okRes, detail := true, ""
-			direct := 0
-			for kk, f := range adapterFor {
-				if callsFn(ad, f) {
-					direct++
-					if k, in := regionOfBlock(b); !in || k != kk {
-						okRes, detail = false, f.Name()+" used outside the region of its result count"
-					}
-				}
-			}
-			if direct == 0 {
-				found := false
-				for _, ab := range ad.Blocks {
-					for _, ain := range ab.Instrs {
-						c, ok := ain.(*ssa.Call)
-						if !ok || c.Call.StaticCallee() != nil || c.Call.IsInvoke() {
-							continue
-						}
-						ld, ok := c.Call.Value.(*ssa.UnOp)
-						if !ok {
-							continue
-						}
-						cell := cellOf(ld.X)
-						if cell == nil {
-							continue
-						}
-						stores := e.storesTo(cell)
-						for _, st := range stores {
-							f, isFn := st.Val.(*ssa.Function)
-							if !isFn {
+				usesCtx := callsFn(ad, argsCtx)
+				usesPlain := callsFn(ad, args)
+				okBuilder := (ctxBranch == 0 && usesCtx && !usesPlain) || (ctxBranch == 1 && usesPlain && !usesCtx)
+				if !usesCtx && !usesPlain {
+					// the choice of builder lives in a function literal the adapter calls (box := func(ctx, args) ...):
+					// there the context builder is called on the context branch only, the plain one on the other, and
+					// the context builder gets the literal's own context parameter, which the adapter fills with its own
+					for _, ab := range ad.Blocks {
+						for _, ain := range ab.Instrs {
+							bc, ok := ain.(*ssa.Call)
+							if !ok || bc.Call.StaticCallee() != nil {
 								continue
 							}
-							for kk, want := range adapterFor {
-								if f == want {
-									found = true
-									if k, in := regionOfBlock(st.Block()); !in || k != kk {
-										okRes, detail = false, f.Name()+" selected outside the region of its result count"
+							g := closureCallee(e, &bc.Call)
+							if g == nil || g.Parent() != callFn || !(callsFn(g, argsCtx) || callsFn(g, args)) {
+								continue
+							}
+							branchOf := func(c *ssa.Call) int {
+								br := -1
+								for _, d := range g.Blocks {
+									if iff := blockIf(d); iff != nil {
+										for i := 0; i < 2; i++ {
+											if edgeDominates(d, i, c.Block()) && derivesFromImplements(e, iff.Cond, 0) {
+												br = i
+											}
+										}
+									}
+								}
+								return br
+							}
+							okB := true
+							for _, c := range staticCallsTo(g, argsCtx) {
+								ctxOK := false
+								for pi, gp := range g.Params {
+									if c.Call.Args[0] == ssa.Value(gp) && pi < len(bc.Call.Args) && bc.Call.Args[pi] == ssa.Value(ad.Params[0]) {
+										ctxOK = true
+									}
+								}
+								if branchOf(c) != 0 || !ctxOK {
+									okB = false
+								}
+							}
+							for _, c := range staticCallsTo(g, args) {
+								if branchOf(c) != 1 {
+									okB = false
+								}
+							}
+							okBuilder = okB && callsFn(g, argsCtx) && callsFn(g, args)
+						}
+					}
+				}
+				r.check(okBuilder, "C20.siblings", ad, "argument builder", ad.Pos(), "matches the context test", "the adapter built on the "+[]string{"context", "no-context", "?"}[map[int]int{0: 0, 1: 1, -1: 2}[ctxBranch]]+" branch uses the wrong argument builder")
+				if usesCtx {
+					for _, c := range staticCallsTo(ad, argsCtx) {
+						r.check(c.Call.Args[0] == ssa.Value(ad.Params[0]), "C20.siblings", ad, "context handed to the builder", c.Pos(), "the adapter's own context parameter", "the builder does not receive the evaluation's context")
+					}
+				}
+				// result adapter: called directly (then the adapter is created in the region of the matching result
+				// count) or through a captured variable (then every assignment of that variable happens in the region
+				// of the matching result count)
+				okRes, detail := true, ""
+				direct := 0
+				for kk, f := range adapterFor {
+					if callsFn(ad, f) {
+						direct++
+						if k, in := regionOfBlock(b); !in || k != kk {
+							okRes, detail = false, f.Name()+" used outside the region of its result count"
+						}
+					}
+				}
+				if direct == 0 {
+					found := false
+					for _, ab := range ad.Blocks {
+						for _, ain := range ab.Instrs {
+							c, ok := ain.(*ssa.Call)
+							if !ok || c.Call.StaticCallee() != nil || c.Call.IsInvoke() {
+								continue
+							}
+							// ... or through a parameter of the function that makes the adapters: every function value
+							// handed over for it at a call site was selected in the region of the matching result count
+							if fv, isFV := c.Call.Value.(*ssa.FreeVar); isFV {
+								if hp, isP := freeVarBinding(fv).(*ssa.Parameter); isP && hp.Parent() == host && host != callFn {
+									for _, a := range w.callSiteArgs(hp) {
+										for _, sel := range fnSelections(e, a, nil, 0) {
+											for kk, want := range adapterFor {
+												if sel.fn != want {
+													continue
+												}
+												found = true
+												viaParam[c] = true
+												if k, in := regionOfBlock(sel.blk); sel.blk == nil || !in || k != kk {
+													okRes, detail = false, want.Name()+" selected outside the region of its result count"
+												}
+											}
+										}
+									}
+								}
+								continue
+							}
+							ld, ok := c.Call.Value.(*ssa.UnOp)
+							if !ok {
+								continue
+							}
+							cell := cellOf(ld.X)
+							if cell == nil {
+								continue
+							}
+							stores := e.storesTo(cell)
+							for _, st := range stores {
+								sels := fnSelections(e, st.Val, st.Block(), 0)
+								// the cell of a parameter of the function that makes the adapters (a captured
+								// parameter is spilled): what the call sites hand over for it
+								if hp, isP := st.Val.(*ssa.Parameter); isP && hp.Parent() == host && host != callFn {
+									for _, a := range w.callSiteArgs(hp) {
+										sels = append(sels, fnSelections(e, a, nil, 0)...)
+									}
+								}
+								for _, sel := range sels {
+									for kk, want := range adapterFor {
+										if sel.fn == want {
+											found = true
+											viaParam[c] = true
+											if k, in := regionOfBlock(sel.blk); sel.blk == nil || !in || k != kk {
+												okRes, detail = false, want.Name()+" selected outside the region of its result count"
+											}
+										}
 									}
 								}
 							}
 						}
 					}
-				}
-				if !found {
-					okRes, detail = false, "no result adapter applied"
-				}
-			} else if direct > 1 {
-				okRes, detail = false, "several result adapters in one closure"
-			}
-			r.check(okRes, "C20.siblings", ad, "result adapter", ad.Pos(), "the adapter for the function's number of results", "the result adapter does not match the number of results: "+detail)
-			// ... and what the result adapter made of the function's results is what the closure returns
-			for _, rt := range errorReturns(ad) {
-				ret := rt[0].(*ssa.Return)
-				if ret.Block() == ad.Recover {
-					continue
-				}
-				verbatim := true
-				var from *ssa.Call
-				for i, rv := range []interface{}{rt[1], rt[2]} {
-					v, _ := rv.(ssa.Value)
-					ex, ok := v.(*ssa.Extract)
-					if !ok || ex.Index != i {
-						verbatim = false
-						break
+					if !found {
+						okRes, detail = false, "no result adapter applied"
 					}
-					c, ok := ex.Tuple.(*ssa.Call)
-					if !ok || (from != nil && c != from) {
-						verbatim = false
-						break
-					}
-					from = c
+				} else if direct > 1 {
+					okRes, detail = false, "several result adapters in one closure"
 				}
-				if verbatim && from != nil {
-					isAdapter := false
-					if sc := from.Call.StaticCallee(); sc != nil {
-						for _, f := range adapterFor {
-							isAdapter = isAdapter || sc == f
+				r.check(okRes, "C20.siblings", ad, "result adapter", ad.Pos(), "the adapter for the function's number of results", "the result adapter does not match the number of results: "+detail)
+				// ... and what the result adapter made of the function's results is what the closure returns
+				for _, rt := range errorReturns(ad) {
+					ret := rt[0].(*ssa.Return)
+					if ret.Block() == ad.Recover {
+						continue
+					}
+					verbatim := true
+					var from *ssa.Call
+					for i, rv := range []interface{}{rt[1], rt[2]} {
+						v, _ := rv.(ssa.Value)
+						ex, ok := v.(*ssa.Extract)
+						if !ok || ex.Index != i {
+							verbatim = false
+							break
 						}
-					} else if ld, ok := from.Call.Value.(*ssa.UnOp); ok && cellOf(ld.X) != nil {
-						isAdapter = true // the adapter selected through a captured variable (checked above)
+						c, ok := ex.Tuple.(*ssa.Call)
+						if !ok || (from != nil && c != from) {
+							verbatim = false
+							break
+						}
+						from = c
 					}
-					verbatim = isAdapter
+					if verbatim && from != nil {
+						isAdapter := false
+						if sc := from.Call.StaticCallee(); sc != nil {
+							for _, f := range adapterFor {
+								isAdapter = isAdapter || sc == f
+							}
+						} else if ld, ok := from.Call.Value.(*ssa.UnOp); ok && cellOf(ld.X) != nil {
+							isAdapter = true // the adapter selected through a captured variable (checked above)
+						} else if viaParam[from] {
+							isAdapter = true // ... or through a parameter of the function that makes the adapters
+						}
+						verbatim = isAdapter
+					}
+					r.check(verbatim, "C20.verbatim", ad, "results handed back by the adapter closure", ret.Pos(), "the result adapter's results, as they are", "the closure does not return what the result adapter made of the function's results ("+describeVal(e, rt[1].(ssa.Value), 0)+", "+describeVal(e, rt[2].(ssa.Value), 0)+"): a builtin that succeeded - a swap! that installed its value - can be reported as failed, or its value replaced")
 				}
-				r.check(verbatim, "C20.verbatim", ad, "results handed back by the adapter closure", ret.Pos(), "the result adapter's results, as they are", "the closure does not return what the result adapter made of the function's results ("+describeVal(e, rt[1].(ssa.Value), 0)+", "+describeVal(e, rt[2].(ssa.Value), 0)+"): a builtin that succeeded - a swap! that installed its value - can be reported as failed, or its value replaced")
-			}
-			h, isB := w.barrierOf(ad)
-			okRec := isB && h == recov
-			if okRec {
-				for _, in2 := range ad.Blocks[0].Instrs {
-					if d, ok := in2.(*ssa.Defer); ok {
-						al, isAl := d.Call.Args[len(d.Call.Args)-1].(*ssa.Alloc)
-						okRec = isAl && al.Parent() == ad && al.Comment == "err"
+				h, isB := w.barrierOf(ad)
+				okRec := isB && h == recov
+				if okRec {
+					for _, in2 := range ad.Blocks[0].Instrs {
+						if d, ok := in2.(*ssa.Defer); ok {
+							al, isAl := d.Call.Args[len(d.Call.Args)-1].(*ssa.Alloc)
+							okRec = isAl && al.Parent() == ad && al.Comment == "err"
+						}
 					}
 				}
+				r.check(okRec, "C20.siblings", ad, "recover barrier", ad.Pos(), "defer _recover(name, &err) first", "the adapter does not start with defer _recover on its own error result: a panic of the bound function (or of the count check) escapes")
 			}
-			r.check(okRec, "C20.siblings", ad, "recover barrier", ad.Pos(), "defer _recover(name, &err) first", "the adapter does not start with defer _recover on its own error result: a panic of the bound function (or of the count check) escapes")
 		}
 	}
 	r.floor("C20.siblings", "adapter closures", nAd, 2)
@@ -2249,6 +2344,92 @@ func checkC20(w *World, r *Report) {
 						}
 					}
 				}
+			}
+		}
+	}
+	// the bounds as values: when the adapters are made by a function of the package, minimum and maximum are handed
+	// to it as arguments and are no captured variables of the registration routine any more; what the builders
+	// are given is followed back to the value at the call site
+	var originVal func(v ssa.Value, depth int) ssa.Value
+	originVal = func(v ssa.Value, depth int) ssa.Value {
+		if depth > 6 {
+			return v
+		}
+		switch x := v.(type) {
+		case *ssa.UnOp:
+			if cell := cellOf(x.X); x.Op == token.MUL && cell != nil && cell.Parent() != callFn {
+				if stores := e.storesTo(cell); len(stores) == 1 {
+					return originVal(stores[0].Val, depth+1)
+				}
+			}
+		case *ssa.FreeVar:
+			if bv := freeVarBinding(x); bv != nil {
+				return originVal(bv, depth+1)
+			}
+		case *ssa.Parameter:
+			if x.Parent() != callFn {
+				if as := w.callSiteArgs(x); len(as) == 1 {
+					return originVal(as[0], depth+1)
+				}
+			}
+		}
+		return v
+	}
+	type boundVal struct {
+		v    ssa.Value
+		role int // 1 minimum, 2 maximum
+		ctx  bool
+		pos  token.Pos
+	}
+	var boundVals []boundVal
+	for _, ad := range adapters {
+		for _, pr := range []struct {
+			fn  *ssa.Function
+			off int
+		}{{argsCtx, 1}, {args, 0}} {
+			for _, c := range staticCallsTo(ad, pr.fn) {
+				for role := 1; role <= 2; role++ {
+					if pr.off+role-1 >= len(c.Call.Args) {
+						continue
+					}
+					o := originVal(c.Call.Args[pr.off+role-1], 0)
+					if ld, ok := o.(*ssa.UnOp); ok && cellOf(ld.X) != nil {
+						continue // a captured variable of the registration routine: the cell-based rules above and below
+					}
+					if in, ok := o.(ssa.Instruction); ok && in.Parent() == callFn {
+						boundVals = append(boundVals, boundVal{o, role, pr.fn == argsCtx, c.Pos()})
+					} else if _, isC := o.(*ssa.Const); isC {
+						boundVals = append(boundVals, boundVal{o, role, pr.fn == argsCtx, c.Pos()})
+					}
+				}
+			}
+		}
+	}
+	var hasGuardedInc func(v ssa.Value, depth int) bool
+	hasGuardedInc = func(v ssa.Value, depth int) bool {
+		if depth > 8 {
+			return false
+		}
+		switch x := v.(type) {
+		case *ssa.Phi:
+			for _, ed := range x.Edges {
+				if hasGuardedInc(ed, depth+1) {
+					return true
+				}
+			}
+		case *ssa.BinOp:
+			if _, ok := isInc(x); ok && guardOf(x.Parent(), x.Block()) == 3 {
+				return true
+			}
+		}
+		return false
+	}
+	for _, bv := range boundVals {
+		if bv.ctx && hasGuardedInc(bv.v, 0) {
+			if bv.role == 1 {
+				incMin = true
+			} else {
+				incMax = true
 			}
 		}
 	}
@@ -2364,6 +2545,15 @@ func checkC20(w *World, r *Report) {
 			}
 			r.check(why == "", "C20.bounds-source", callFn, "value assigned to a bound: "+nz(w.srcExpr(st), describeVal(e, st.Val, 0)), st.Pos(), "declared bound, signature count, constant, or the context increment under its guard", "a bound is assigned "+why+", which is neither what was declared nor what the signature says: calls whose argument count lies within the declared bounds are refused (or calls outside them reach the function)")
 		}
+	}
+	seenBV := map[ssa.Value]bool{}
+	for _, bv := range boundVals {
+		if seenBV[bv.v] {
+			continue
+		}
+		seenBV[bv.v] = true
+		why := srcOf(bv.v, 0)
+		r.check(why == "", "C20.bounds-source", callFn, "value handed over as a bound: "+describeVal(e, bv.v, 0), bv.pos, "declared bound, signature count, constant, or the context increment under its guard", "a bound is "+why+", which is neither what was declared nor what the signature says: calls whose argument count lies within the declared bounds are refused (or calls outside them reach the function)")
 	}
 	r.floor("C20.bounds-source", "sources of the bounds", nbs, 4)
 	// the context builder compares against bounds - 1
@@ -2693,6 +2883,11 @@ func checkC20(w *World, r *Report) {
 					continue
 				}
 				nctor++
+				// a thrown lisp value (an atom, a byte string, a map ...) that crosses a Go builtin is still the error
+				// object: only what is known to be a Go error goes to the constructor that makes a message of it
+				if c.Call.StaticCallee().Name() == "NewGoError" {
+					r.check(isErrorType(unboxed(cause).Type()), "C20.panic", recov, "kind of value handed to NewGoError", c.Pos(), "a value asserted to be an error", "a recovered value that is not known to be a Go error is turned into a message ("+describeVal(e, cause, 0)+" goes to the constructor that formats it): a lisp value thrown through a builtin reaches catch as text instead of as the value, and errors.Is / ErrorValue no longer find it")
+				}
 				r.check(isRecovered(cause, 0), "C20.panic", recov, "value handed to "+c.Call.StaticCallee().Name(), c.Pos(), "the recovered value itself", "the error is built from something computed out of the recovered value ("+describeVal(e, cause, 0)+") instead of the value: the lisp error no longer wraps the original (errors.Is / errors.As and unwrap-error lose it)")
 			}
 		}
@@ -2971,6 +3166,13 @@ func checkC20(w *World, r *Report) {
 							nOverride++
 						case mentionsOverride(lf, 0):
 							okName, why = false, "the override name is rewritten ("+describeVal(e, lf, 0)+") before the function is bound under it"
+						default:
+							// the derived name: the runtime name cut, lower-cased and hyphenated - and nothing else
+							if _, isCall := lf.(*ssa.Call); isCall {
+								if extra := derivedNameExtra(e, lf, 0); extra != "" {
+									okName, why = false, "the derived name is also passed through "+extra+": a Go function whose name that step changes is registered under another name than its hyphenated lower-case name"
+								}
+							}
 						}
 					}
 					r.check(okName && (overrideParam < 0 || nOverride >= 1), "C20.name", f, "name the function is bound under", in.Pos(), "the override exactly as given, or the derived name", nz(why, "the override name does not reach the binding")+": a function registered under an explicit name is not found under that name")
@@ -2978,6 +3180,58 @@ func checkC20(w *World, r *Report) {
 			}
 		}
 		r.floor("C20.name", "bindings of registered functions", nb+1, 2)
+		// what is bound is the adapter made for this registration
+		r.rule("C20.own-adapter", "the function value a registration binds (types.Func.Fn handed to Set) is an adapter closure made in that very registration - by the registration routine or a function of its package that returns a new closure - never a function value fetched from somewhere else (a table of adapters shared between registrations hands one Go function's adapter to another: two closures of one function literal have the same code pointer)")
+		nown := 0
+		var madeHere func(v ssa.Value, depth int) (bool, string)
+		madeHere = func(v ssa.Value, depth int) (bool, string) {
+			if depth > 4 {
+				return false, "too deep to follow"
+			}
+			switch x := v.(type) {
+			case *ssa.MakeClosure:
+				return true, ""
+			case *ssa.ChangeType:
+				return madeHere(x.X, depth+1)
+			case *ssa.Call:
+				g := x.Call.StaticCallee()
+				if g == nil || g.Pkg != callFn.Pkg || len(g.Blocks) == 0 {
+					return false, "the result of " + describeVal(e, v, 0)
+				}
+				for _, rt := range (&evalModel{}).returns(g) {
+					for _, lf := range e.producers(stripConv(resolveRet(rt[1].(ssa.Value))), map[ssa.Value]bool{}, 0) {
+						if ok, why := madeHere(lf, depth+1); !ok {
+							return false, why
+						}
+					}
+				}
+				return true, ""
+			}
+			return false, describeVal(e, v, 0)
+		}
+		for _, f := range w.withPkgHelpers(callFn) {
+			for _, b := range f.Blocks {
+				for _, in := range b.Instrs {
+					st, ok := in.(*ssa.Store)
+					if !ok {
+						continue
+					}
+					fa, ok := st.Addr.(*ssa.FieldAddr)
+					if !ok || fieldName(fa.X.Type(), fa.Field) != "Fn" {
+						continue
+					}
+					if _, name, ok := w.namedStruct(fa.X.Type()); !ok || name != "Func" {
+						continue
+					}
+					nown++
+					for _, lf := range e.producers(stripConv(st.Val), map[ssa.Value]bool{}, 0) {
+						ok, why := madeHere(lf, 0)
+						r.check(ok, "C20.own-adapter", f, "function value bound by the registration", st.Pos(), "an adapter closure made in this registration", "the registration can bind "+why+" instead of the adapter it has just made for the function it was given: the lisp name then invokes another Go function (or the same code with another closure's captured state)")
+					}
+				}
+			}
+		}
+		r.floor("C20.own-adapter", "function values bound by the registration", nown, 1)
 		// the registry files the function under its package: that key is derived from the function's runtime
 		// name in one way, whether or not the function is registered under an explicit name
 		r.rule("C20.package-key", "the key under which the registry (_PACKAGES_) files a registered function is assigned independently of the override name: no assignment to it is made under a test of the override parameter (functions registered with and without an explicit name land under the same package)")
@@ -3181,8 +3435,80 @@ func derivesFromImplements(e *Engine, v ssa.Value, depth int) bool {
 		}
 	case *ssa.BinOp:
 		return derivesFromImplements(e, x.X, depth+1) || derivesFromImplements(e, x.Y, depth+1)
+	case *ssa.FreeVar:
+		if bv := freeVarBinding(x); bv != nil {
+			return derivesFromImplements(e, bv, depth+1)
+		}
 	}
 	return false
+}
+
+// freeVarBinding: the value the enclosing function binds to a captured variable of a function literal.
+func freeVarBinding(fv *ssa.FreeVar) ssa.Value {
+	fn := fv.Parent()
+	parent := fn.Parent()
+	if parent == nil {
+		return nil
+	}
+	idx := -1
+	for i, f := range fn.FreeVars {
+		if f == fv {
+			idx = i
+		}
+	}
+	if idx < 0 {
+		return nil
+	}
+	for _, b := range parent.Blocks {
+		for _, in := range b.Instrs {
+			if mc, ok := in.(*ssa.MakeClosure); ok && mc.Fn == ssa.Value(fn) && idx < len(mc.Bindings) {
+				return mc.Bindings[idx]
+			}
+		}
+	}
+	return nil
+}
+
+// closureCallee: the function literal a call goes to when its callee is a local or captured variable that holds
+// one literal only (box := func(...){...}; ... box(x)).
+func closureCallee(e *Engine, c *ssa.CallCommon) *ssa.Function {
+	if sc := c.StaticCallee(); sc != nil {
+		return sc
+	}
+	if c.IsInvoke() {
+		return nil
+	}
+	var resolve func(v ssa.Value, depth int) *ssa.Function
+	resolve = func(v ssa.Value, depth int) *ssa.Function {
+		if depth > 4 {
+			return nil
+		}
+		switch x := v.(type) {
+		case *ssa.MakeClosure:
+			f, _ := x.Fn.(*ssa.Function)
+			return f
+		case *ssa.Function:
+			return x
+		case *ssa.FreeVar:
+			if bv := freeVarBinding(x); bv != nil {
+				return resolve(bv, depth+1)
+			}
+		case *ssa.UnOp:
+			if cell := cellOf(x.X); cell != nil && x.Op == token.MUL {
+				var f *ssa.Function
+				for _, st := range e.storesTo(cell) {
+					g := resolve(st.Val, depth+1)
+					if g == nil || (f != nil && g != f) {
+						return nil
+					}
+					f = g
+				}
+				return f
+			}
+		}
+		return nil
+	}
+	return resolve(c.Value, 0)
 }
 
 // boundRole: 1 if the cell is what the adapters pass as the builders' minimum, 2 for the maximum, 0 otherwise.
@@ -5612,4 +5938,86 @@ func scanBetween(st *ssa.Store, ld ssa.Instruction) bool {
 		}
 	}
 	return true
+}
+
+type fnSelection struct {
+	fn  *ssa.Function
+	blk *ssa.BasicBlock // the block in which this function value was chosen (nil: unknown)
+}
+
+// fnSelections: the function values a value of function type can hold, each with the block where it was chosen
+// (the predecessor of the merge it arrives through, or the block of the assignment to the variable).
+func fnSelections(e *Engine, v ssa.Value, at *ssa.BasicBlock, depth int) []fnSelection {
+	if depth > 6 {
+		return nil
+	}
+	switch x := v.(type) {
+	case *ssa.Function:
+		return []fnSelection{{x, at}}
+	case *ssa.ChangeType:
+		return fnSelections(e, x.X, at, depth+1)
+	case *ssa.MakeInterface:
+		return fnSelections(e, x.X, at, depth+1)
+	case *ssa.Phi:
+		var out []fnSelection
+		for i, ed := range x.Edges {
+			out = append(out, fnSelections(e, ed, x.Block().Preds[i], depth+1)...)
+		}
+		return out
+	case *ssa.UnOp:
+		if cell := cellOf(x.X); cell != nil && x.Op == token.MUL {
+			var out []fnSelection
+			for _, st := range e.storesTo(cell) {
+				out = append(out, fnSelections(e, st.Val, st.Block(), depth+1)...)
+			}
+			return out
+		}
+	}
+	return nil
+}
+
+// derivedNameExtra: the steps between the runtime name of a function and the name it is registered under are
+// cutting (slices), lower-casing and replacing _ by -; returns the first other string operation found ("" if none).
+func derivedNameExtra(e *Engine, v ssa.Value, depth int) string {
+	if depth > 10 {
+		return ""
+	}
+	switch x := v.(type) {
+	case *ssa.Slice:
+		return derivedNameExtra(e, x.X, depth+1)
+	case *ssa.Phi:
+		for _, ed := range x.Edges {
+			if s := derivedNameExtra(e, ed, depth+1); s != "" {
+				return s
+			}
+		}
+	case *ssa.UnOp:
+		if cell := cellOf(x.X); cell != nil {
+			for _, st := range e.storesTo(cell) {
+				if s := derivedNameExtra(e, st.Val, depth+1); s != "" {
+					return s
+				}
+			}
+		}
+	case *ssa.Call:
+		if isStringsFn(x, "ToLower") {
+			return derivedNameExtra(e, x.Call.Args[0], depth+1)
+		}
+		if isStringsFn(x, "Replace", "ReplaceAll") {
+			f, _ := constString(x.Call.Args[1])
+			t, _ := constString(x.Call.Args[2])
+			if f == "_" && t == "-" {
+				return derivedNameExtra(e, x.Call.Args[0], depth+1)
+			}
+			return "strings." + x.Call.StaticCallee().Name() + fmt.Sprintf("(%q, %q)", f, t)
+		}
+		if sc := x.Call.StaticCallee(); sc != nil && sc.Pkg != nil && sc.Pkg.Pkg.Path() == "strings" {
+			switch sc.Name() {
+			case "LastIndex", "Index", "HasPrefix", "HasSuffix", "Contains":
+				return ""
+			}
+			return "strings." + sc.Name()
+		}
+	}
+	return ""
 }
